@@ -1,64 +1,36 @@
 import CentrifugeVerif.Proofs.RedisPush
 /-!
-# C33 — Redis PUB/SUB payload framing round-trips; is parsing total?
+# C33 — Redis PUB/SUB payload framing round-trips and parsing is total
 
 Model: `Model/RedisPush.lean` — Go `extractPushData` / `parseDeltaPush` as they are in `/repo`
-(with the bounds checks of commit e8dc9ebe), slice-bounds panics as the explicit outcome
-`Outcome.panic`, Go `int` wrap-around of `prevPayloadLength+1` included; builders: the Lua `..`
-chains translated into `Gen/RedisPushFmt.lean` on every run.
+(with the bounds checks of commits e8dc9ebe and efc5e395), slice-bounds panics as the explicit
+outcome `Outcome.panic`; builders: the Lua `..` chains translated into `Gen/RedisPushFmt.lean` on
+every run.
 
-* Totality: commit e8dc9ebe removed the four panic shapes C33-1…4, but its guard
-  `len(input) < prevPayloadLength+1` overflows when the declared prev-payload length is exactly
-  MaxInt64 (9223372036854775807): the sum wraps to MinInt64, the guard is false and
-  `input[:prevPayloadLength]` is out of range (finding C33-6, replayed on the real code).
-  `extract_panics_iff` proves that this is the **only** remaining panic shape;
-  FULL STATEMENT (false today): `extract_total : ∀ data, extractPushData data ≠ .panic`;
-  proved: `extract_total_partial` (every input outside that shape), `extract_not_total` with a
-  `decide`d witness.  Overflow-free guard: `prevPayloadLength < 0 || len(input) <= prevPayloadLength`.
+* Totality (`extract_total`, `parseDeltaPush_total`): for **every** byte string the decoder returns
+  a value, never the `panic` outcome — the guards in front of the length-driven slices suffice.
 * Round trip (`extract_build_roundtrip_*`): holds for all payload bytes, previous payloads,
   offsets and epochs under the stated (necessary, see the `example`s) restrictions.
-* History (findings C33-1…4, fixed by e8dc9ebe): the functions with suffix `Pre` are the code
-  before the fix; `extractPre_panics_iff` characterises exactly which inputs made it panic,
-  `extract_agrees_prefix` shows the fix changed nothing on any input outside the overflow shape,
-  and the four old witnesses are now decoded as malformed (`ok = false`).
+* History: findings C33-1…4 (fixed by e8dc9ebe) — the functions with suffix `Pre` are the code
+  before the fixes; `extractPre_panics_iff` characterises exactly which inputs made it panic,
+  `extract_agrees_prefix` shows the fixes changed nothing on any other input, and the old witnesses
+  are now decoded as malformed (`ok = false`).  Finding C33-6 (first version of the guard,
+  `len(input) < prevPayloadLength+1`, overflowed for a declared length of MaxInt64; fixed by
+  efc5e395 with `len(input) <= prevPayloadLength`): its witness is `decide`d below as well.
 -/
 namespace CentrifugeVerif.RedisPush
 open CentrifugeVerif.Gen.RedisPushFmt
 
-/-! ## Totality of the current code -/
+/-! ## Totality -/
 
-/-- The current `extractPushData` panics on exactly the inputs `overflowClass` describes: a
-`__d1:offset:epoch:9223372036854775807:…` header (declared prev-payload length = MaxInt64). -/
-theorem extract_panics_iff (data : Bytes) :
-    extractPushData data = .panic ↔ overflowClass data = true :=
-  extractPushData_panic_iff data
+/-- **Decoding an arbitrary PUB/SUB payload never crashes the node**: for every byte string,
+`extractPushData` returns a value (possibly flagged malformed), never the panic outcome. -/
+theorem extract_total (data : Bytes) : extractPushData data ≠ .panic :=
+  extractPushData_ne_panic data
 
-theorem parseDeltaPush_panics_iff (input : Bytes) :
-    parseDeltaPush input = .panic ↔ ∃ h, deltaHead input = .ok h ∧ h.prevLen = maxInt64 :=
-  parseDeltaPush_panic_iff input
-
-/-- FULL STATEMENT (false, see `extract_not_total`): `∀ data, extractPushData data ≠ .panic`.
-Proved: decoding never panics on any byte string outside the MaxInt64 shape. -/
-theorem extract_total_partial (data : Bytes) (h : overflowClass data = false) :
-    extractPushData data ≠ .panic :=
-  extractPushData_ne_panic data h
-
-/-- the excluding hypothesis holds for ordinary and for malformed inputs alike … -/
-example : overflowClass [95,95,100,49,58,49,58,101,58,51,58,97,98,99,58,49,58,120] = false := by decide
-example : overflowClass [95,95,112,49,95,95,120] = false := by decide
-example : overflowClass [95,95,100,49,58,49,58,101,58,45,49,58,97,98,99,58,49,58,120] = false := by decide
-
-/-- … but not for `__d1:1:e:9223372036854775807:abc` -/
-def overflowWitness : Bytes :=
-  [95,95,100,49,58,49,58,101,58,57,50,50,51,51,55,50,48,51,54,56,53,52,55,55,53,56,48,55,58,97,98,99]
-
-example : overflowClass overflowWitness = true := by decide
-example : extractPushData overflowWitness = .panic := by decide
-
-/-- the totality half of the property is still false for the code as it is (finding C33-6) -/
-theorem extract_not_total : ¬ ∀ data : Bytes, extractPushData data ≠ .panic := by
-  intro h
-  exact h overflowWitness (by decide)
+/-- the same for `parseDeltaPush` on every input string -/
+theorem parseDeltaPush_total (input : Bytes) : parseDeltaPush input ≠ .panic :=
+  parseDeltaPush_ne_panic input
 
 /-- the four inputs that crashed the pre-fix code are now reported as malformed -/
 example : extractPushData [95,95,112,49,95,95,120] = .val (failWith [120]) := by decide
@@ -66,7 +38,13 @@ example : extractPushData [95,95,100,49,58,49,58,101,58,51,58,97,98,99] = .val (
 example : extractPushData [95,95,100,49,58,49,58,101,58,45,49,58,97,98,99,58,49,58,120] = .val (failWith []) := by decide
 example : extractPushData [95,95,100,49,58,49,58,101,58,48,58,58,45,50,58,97,98] = .val (failWith []) := by decide
 
-/-! ## The code before e8dc9ebe (findings C33-1…4) -/
+/-- `__d1:1:e:9223372036854775807:abc` (declared prev-payload length = MaxInt64, finding C33-6):
+malformed, no panic -/
+example : extractPushData
+    [95,95,100,49,58,49,58,101,58,57,50,50,51,51,55,50,48,51,54,56,53,52,55,55,53,56,48,55,58,97,98,99] =
+    .val (failWith []) := by decide
+
+/-! ## The code before the fixes (findings C33-1…4) -/
 
 /-- Exactly the inputs classified by `panicClass` made the pre-fix `extractPushData` panic. -/
 theorem extractPre_panics_iff (data : Bytes) :
@@ -105,14 +83,11 @@ theorem extractPre_not_total : ¬ ∀ data : Bytes, extractPushDataPre data ≠ 
   intro h
   exact h [95,95,112,49,95,95,120] (by decide)
 
-/-- the fix is conservative outside the overflow shape: wherever the pre-fix code returned a
-value, the current code returns the same value.  (On the overflow shape the pre-fix code returned
-the malformed-data error and the current code panics — `decide`d below.) -/
-theorem extract_agrees_prefix (data : Bytes) (ho : overflowClass data = false) (r : Push)
-    (h : extractPushDataPre data = .val r) : extractPushData data = .val r :=
-  extractPushData_agrees data ho r h
-
-example : extractPushDataPre overflowWitness = .val (failWith []) := by decide
+/-- the fixes are conservative: wherever the pre-fix code returned a value, the current code
+returns the same value -/
+theorem extract_agrees_prefix (data : Bytes) (r : Push) (h : extractPushDataPre data = .val r) :
+    extractPushData data = .val r :=
+  extractPushData_agrees data r h
 
 /-! ## Round trip -/
 
@@ -165,29 +140,17 @@ theorem extractPre_deltaFrame (off : Nat) (epoch prev payload : Bytes)
 theorem extract_positionedFrame (off : Nat) (epoch payload : Bytes)
     (hoff : off < 2 ^ 64) (hep : ∀ b ∈ epoch, b ≠ 95) :
     extractPushData (positionedFrame off epoch payload) = .val (expectPub off epoch payload false []) :=
-  extract_agrees_prefix _ (by simp [overflowClass, positionedFrame]) _
-    (extractPre_positionedFrame off epoch payload hoff hep)
+  extract_agrees_prefix _ _ (extractPre_positionedFrame off epoch payload hoff hep)
 
 /-- the current decoder on a delta frame -/
 theorem extract_deltaFrame (off : Nat) (epoch prev payload : Bytes)
     (hoff : off < 2 ^ 64) (hep : ∀ b ∈ epoch, b ≠ 58)
-    (hpv : prev.length < 2 ^ 63 - 1) (hpl : payload.length < 2 ^ 63) :
+    (hpv : prev.length < 2 ^ 63) (hpl : payload.length < 2 ^ 63) :
     extractPushData (deltaFrame off epoch prev payload) = .val (expectPub off epoch payload true prev) := by
-  have hh := deltaHead_frame off epoch prev payload hoff hep (by omega)
-  have ho : overflowClass (deltaFrame off epoch prev payload) = false := by
-    unfold overflowClass deltaFrame
-    rw [if_neg (by simp)]
-    simp only [show ∀ l : Bytes, List.drop 2 ([95, 95] ++ l) = l from fun l => by simp]
-    simp only [List.cons_append, List.nil_append] at hh ⊢
-    rw [if_pos trivial, hh]
-    simp only [beq_eq_false_iff_ne, ne_eq]
-    unfold maxInt64
-    omega
-  exact extract_agrees_prefix _ ho _ (extractPre_deltaFrame off epoch prev payload hoff hep (by omega) hpl)
+  exact extract_agrees_prefix _ _ (extractPre_deltaFrame off epoch prev payload hoff hep hpv hpl)
 
 theorem p14_lt_64 : (10:Nat) ^ 14 < 2 ^ 64 := by decide
 theorem p14_lt_63 : (10:Nat) ^ 14 < 2 ^ 63 := by decide
-theorem p14_lt_63' : (10:Nat) ^ 14 < 2 ^ 63 - 1 := by decide
 
 /-- **Positioned publications** (`__p1:offset:epoch__payload`, stream and list script): for all
 payload bytes, all offsets below the Lua `%.14g` decimal range and all epochs without `_`, the
@@ -209,7 +172,7 @@ theorem extract_build_roundtrip_delta (e : Env) (hoff : e.offset < 10 ^ 14)
     ∃ frame, render e streamDelta = some frame ∧ render e listDelta = some frame ∧
       extractPushData frame = .val (expectPub e.offset e.epoch e.payload true e.prev) :=
   ⟨_, (render_delta e hoff hpv hpl).1, (render_delta e hoff hpv hpl).2,
-    extract_deltaFrame _ _ _ _ (Nat.lt_trans hoff p14_lt_64) hep (Nat.lt_trans hpv p14_lt_63')
+    extract_deltaFrame _ _ _ _ (Nat.lt_trans hoff p14_lt_64) hep (Nat.lt_trans hpv p14_lt_63)
       (Nat.lt_trans hpl p14_lt_63)⟩
 
 /-- hypotheses are satisfiable by a non-trivial instance (epoch as generated by `epoch.Generate`) -/
@@ -269,9 +232,9 @@ theorem list_delta_prev_is_framed_entry (e1 e2 : Env) (h1 : e1.offset < 10 ^ 14)
         exact decimalF_length_le 20 e1.offset
       simp [positionedFrame]; omega
     exact (render_delta { e2 with prev := positionedFrame e1.offset e1.epoch e1.payload } h2 hlen hl2).2
-  · have hlen : (positionedFrame e1.offset e1.epoch e1.payload).length < 2 ^ 63 - 1 := by
+  · have hlen : (positionedFrame e1.offset e1.epoch e1.payload).length < 2 ^ 63 := by
       have : (decimal e1.offset).length ≤ 20 := decimalF_length_le 20 e1.offset
-      have := p14_lt_63'
+      have := p14_lt_63
       simp [positionedFrame]; omega
     exact extract_deltaFrame _ _ _ _ (Nat.lt_trans h2 p14_lt_64) hep hlen (Nat.lt_trans hl2 p14_lt_63)
   · intro h
